@@ -152,6 +152,21 @@ def _judge(ctx, calc, cls, interp, case_id, sample):
                 ctx.maxi("continuity_jump/bound", jump / bound)
                 if jump > bound:
                     ctx.violation(f"discontinuity-at-T0:{kcls}", f"{cls}: c{a}{b} jumps by {jump:.3g} between T=0 and T={t[i1]} (bound {bound:.3g})", case_id, sample)
+                # the adiabatic correction is a thermal term too: it vanishes at T=0 (c^S(0) = c^T(0)) and c^S(T) -> c^S(0)
+                if numpy.all(numpy.isfinite(adi[i0])):
+                    d0 = numpy.abs(adi[i0] - iso[i0]).max()
+                    ctx.maxi("adiabatic_minus_isothermal_at_T0/tol", d0 / (1e-9 * static))
+                    ctx.count("adiabatic_T0_rows_checked")
+                    if d0 > 1e-9 * static:
+                        ctx.violation(f"adiabatic-differs-from-isothermal-at-T0:{kcls}", f"{cls}: c{a}{b} adiabatic differs from isothermal by {d0:.3g} at T=0 "
+                                      f"(C_V exactly zero at {int((cv[t > 0] == 0).sum())} grid points with T>0)", case_id, sample)
+                    fin = (cv[i1] > 0) & numpy.isfinite(adi[i1])
+                    if fin.any():
+                        jump_s = numpy.abs(adi[i1] - adi[i0])[fin].max()
+                        ctx.maxi("continuity_jump_adiabatic/bound", jump_s / bound)
+                        if jump_s > bound:
+                            ctx.violation(f"discontinuity-at-T0:adiabatic:{kcls}", f"{cls}: adiabatic c{a}{b} jumps by {jump_s:.3g} between T=0 and "
+                                          f"T={t[i1]} (bound {bound:.3g})", case_id, sample)
         try:
             judged = judge_vrh(ctx, calc, calc.volume_base, case_id, tag=cls)
             for prop in ("bulk_modulus_voigt_reuss_hill", "shear_modulus_voigt_reuss_hill", "primary_velocities", "secondary_velocities"):
